@@ -210,6 +210,7 @@ func regenInstances(repoDir, tier string, sink *report.Sink) ([]*gen.Instance, e
 	corpora := []regen.Corpus{
 		{Name: "corpus", Src: filepath.Join(vd, "corpus"), Module: "example.com/corpus", Cmds: [][]string{{".", "./..."}}, VRules: true},
 		{Name: "corpus-modifier", Src: filepath.Join(vd, "corpus_mod"), Module: "example.com/corpusmod", Cmds: [][]string{{".", "-genmode", "modifier", "./..."}}, VRules: true, Modifier: true},
+		{Name: "corpus-shadow", Src: filepath.Join(vd, "corpus_shadow"), Module: "example.com/corpusshadow", Cmds: [][]string{{".", "./..."}}, VRules: false},
 		{Name: "corpus-sourcemap", Src: filepath.Join(vd, "corpus"), Module: "example.com/corpus", Cmds: [][]string{{".", "-genmode", "source-map", "./..."}}, VRules: tier == "thorough"},
 	}
 	if tier == "thorough" {
@@ -233,7 +234,7 @@ func regenInstances(repoDir, tier string, sink *report.Sink) ([]*gen.Instance, e
 				failed = e
 			}
 		}
-		sink.Check(failed == "", "V15", c.Name+"|cff succeeds on the corpus", "", "", "the generator built from the tree fails on a valid corpus: "+failed)
+		sink.Check(failed == "", "V23", c.Name+"|cff succeeds on the corpus", "", "", "the generator built from the tree fails on a valid corpus: "+failed)
 	}
 	if len(res.PkgErrs) == 0 {
 		sink.OK("V15", "regenerated packages type-check", "", fmt.Sprintf("%d packages", res.Packages))
